@@ -204,22 +204,28 @@ impl JV {
     }
 }
 
-/// every value a path can legitimately resolve to (duplicate keys: any of the duplicates); empty = absent
-pub fn resolve<'a>(doc: &'a JV, steps: &[JsonStep]) -> Vec<&'a JV> {
+/// every value a path can legitimately resolve to (duplicate keys: any of the duplicates); the flag tells whether
+/// some choice among duplicates leads nowhere (absent); no value and no flag = plainly absent
+pub fn resolve<'a>(doc: &'a JV, steps: &[JsonStep]) -> Vec<&'a JV> { resolve2(doc, steps).0 }
+
+pub fn resolve2<'a>(doc: &'a JV, steps: &[JsonStep]) -> (Vec<&'a JV>, bool) {
     let mut cur = vec![doc];
+    let mut dead_branch = false;
     for s in steps {
         let mut next = Vec::new();
         for d in cur {
+            let before = next.len();
             match (s, d) {
                 (JsonStep::Field(f), JV::Obj(o)) => { for (k, v) in o { if k == f { next.push(v); } } }
                 (JsonStep::Index(i), JV::Arr(a)) => { if let Some(v) = a.get(*i as usize) { next.push(v); } }
                 _ => {}
             }
+            if next.len() == before { dead_branch = true; }
         }
         cur = next;
         if cur.is_empty() { break; }
     }
-    cur
+    (cur, dead_branch)
 }
 
 fn number_accept(ty: &Ty, spelling: &str) -> Vec<RV> {
@@ -268,11 +274,13 @@ pub fn expect_json_column(col: &ColSpec, doc: Option<&JV>) -> Accept {
     let default = default_of(col);
     let Src::Json(steps) = &col.src else { return Accept::one(RV::Null, "not-json") };
     let Some(doc) = doc else { return Accept::of(vec![RV::Null, default], "not-a-document") };
-    let found = resolve(doc, steps);
+    let (found, dead_branch) = resolve2(doc, steps);
     let mut vals = Vec::new();
     let situation = if found.is_empty() { vals.push(RV::Null); vals.push(default.clone()); "path-absent" } else {
         for f in &found { vals.extend(leaf_accept(&col.ty, f, col.modifier == Modifier::Convert, &default)); }
-        if found.len() > 1 { "duplicate-keys" } else { "path-present" }
+        // with duplicate keys another duplicate may lead nowhere
+        if dead_branch { vals.push(RV::Null); vals.push(default.clone()); }
+        if found.len() > 1 || dead_branch { "duplicate-keys" } else { "path-present" }
     };
     if doc.has_unrepresentable_number() { vals.push(RV::Null); vals.push(default); }
     Accept::of(vals, situation)
